@@ -529,6 +529,11 @@ func (p *parser) typeExpr() TypeExpr {
 	if t.kind != "ident" {
 		p.fail("type expected, got %q", t.text)
 	}
+	if t.text == "struct" {
+		p.expect("{")
+		p.expect("}")
+		return TypeExpr{Kind: "name", Name: "struct{}"}
+	}
 	if t.text == "map" {
 		p.expect("[")
 		k := p.typeExpr()
